@@ -106,25 +106,22 @@ def process_error_sources(container_obj, yaml_doc):
     # -- process error sources
     # errors can be specified as a single float, a list of floats, or a kafe2 error object
     # lists of the above are also valid, if the error object is not a list
+    def _as_list_of_error_sources(errors):
+        if isinstance(errors, dict):  # a single error source
+            return [errors]
+        if isinstance(errors, (int, float, str)):  # one value for all data points
+            errors = [errors] * container_obj.size
+        if len(errors) > 0 and isinstance(errors[0], (int, float, str)):  # the pointwise values of a single error source
+            return [errors]
+        return errors
+
     if isinstance(container_obj, XYContainer):  # also applies for XYParamModel
-        _xerrs = yaml_doc.pop("x_errors", [])
-        if isinstance(_xerrs, (int, float, str)):
-            _xerrs = [_xerrs] * container_obj.size
-        if len(_xerrs) > 0 and isinstance(_xerrs[0], (int, float, str)):
-            _xerrs = [_xerrs]
-        _yerrs = yaml_doc.pop("y_errors", [])
-        if not isinstance(_yerrs, list):
-            _yerrs = [_yerrs] * container_obj.size
-        if len(_yerrs) > 0 and isinstance(_yerrs[0], (int, float, str)):
-            _yerrs = [_yerrs]
+        _xerrs = _as_list_of_error_sources(yaml_doc.pop("x_errors", []))
+        _yerrs = _as_list_of_error_sources(yaml_doc.pop("y_errors", []))
         _errs = _xerrs + _yerrs
         _axes = [0] * len(_xerrs) + [1] * len(_yerrs)  # 0 for 'x', 1 for 'y'
     else:
-        _errs = yaml_doc.pop("errors", [])
-        if not isinstance(_errs, list):
-            _errs = [_errs] * container_obj.size
-        if len(_errs) > 0 and isinstance(_errs[0], float):
-            _errs = [_errs]
+        _errs = _as_list_of_error_sources(yaml_doc.pop("errors", []))
         _axes = [None] * len(_errs)
 
     # add error sources, if any
